@@ -84,7 +84,7 @@ func (u *Unit) execCall(st *State, instr ssa.Instruction, common *ssa.CallCommon
 	}
 	c, callee, name := u.calleeContract(common)
 	u.ghostBeforeCall(st, instr, name)
-	u.assertsAtCall(st, instr, name)
+	u.assertsAtCall(st, instr, name, args...)
 	u.lockAtCall(st, instr, callee, c)
 	// closures: free variables are bound at the MakeClosure
 	var closure *ssa.MakeClosure
@@ -863,7 +863,7 @@ func (u *Unit) runDefers(st *State) {
 var _ = token.NoPos
 
 // assertsAtCall: checked hints `assert at call of F: expr` are proved where F is called and then assumed.
-func (u *Unit) assertsAtCall(st *State, instr ssa.Instruction, name string) {
+func (u *Unit) assertsAtCall(st *State, instr ssa.Instruction, name string, args ...Term) {
 	if u.contract == nil {
 		return
 	}
@@ -877,6 +877,10 @@ func (u *Unit) assertsAtCall(st *State, instr ssa.Instruction, name string) {
 		}
 		ctx := u.newCtx(st, u.entry)
 		u.bindLocals(ctx, st, instr.Block())
+		for i, a := range args {
+			// #arg0, #arg1, ...: the arguments of this call (receiver first)
+			ctx.vars[fmt.Sprintf("__h_arg%d", i)] = a
+		}
 		g := ctx.eval(a.Clause.Expr)
 		for _, s := range ctx.side {
 			st.assume(s)
